@@ -24,8 +24,8 @@ from vplib import *
 HARNESS = os.path.join(ROOT, "harness/c10/zz_verif_c10_test.go")
 PKG = "./internal/index/manager/"
 RUN = os.path.join(BUILD, "run", "c10")
-TAGDEFS = ['cdata:"a"', 'cdata:"bb"', 'cdata:"c"']
-GEN_VERSION = 9
+TAGDEFS = ['cdata:"^a+$"', 'cdata:"bb"', 'cdata:"^[ab]+$"']   # anchored: a stream stops matching when a later capture extends it
+GEN_VERSION = 10
 KF_REFETCH = "view-refetch-empty"
 
 
@@ -71,6 +71,8 @@ def gen_scenario(rng, name, big=False):
             script.append(["import", rng.choice([1, 1, 1, 2, 3])])
         elif k in ("step", "read", "release", "tagdel", "tagupd"):
             script.append([k, rng.randrange(6)])
+        elif k == "view":
+            script.append(["viewp"] if rng.random() < 0.4 else ["view"])   # viewp: battery asks with PrefetchAllTags
         else:
             script.append([k])
     return {"name": name, "caps": caps, "script": script, "tags": TAGDEFS[:rng.randint(0, 3)] if style < 0.75 else TAGDEFS, "probe": nflows + 2, "bad": bad,
@@ -135,6 +137,16 @@ def fixed_scenarios():
                 "script": [["import", 1], ["job", "import"], ["job", "import"], ["import", 1], ["job", "import"], ["job", "import"],
                            ["import", 1], ["job", "import"], ["job", "import"], ["view"], ["failmerge"], ["import", 1], ["job", "import"],
                            ["job", "merge"], ["job", "import"], ["view"], ["import", 1]]})
+    # view A holds a tag copy; a later capture extends the stream and un-matches the tag; while the tag is still uncertain
+    # view B evaluates it lazily (PrefetchAllTags): A's copy of the tag details must not change
+    out.append({"name": "fix-prefetch-other-view", "caps": [[[0, 3], [1, 2]], [[0, 2]], [[1, 1]]], "tags": ['cdata:"^a+$"'], "probe": 4,
+                "script": [["import", 1], ["job", "import"], ["job", "import"], ["tagadd"], ["job", "tag"], ["job", "tag"], ["view"],
+                           ["import", 1], ["job", "import"], ["job", "import"], ["viewp"], ["read", 0], ["import", 1], ["job", "import"],
+                           ["viewp"], ["job", "import"], ["viewp"], ["job", "tag"], ["job", "tag"]]})
+    # chained import jobs with captures queued behind them: the pcap-processed report must name the finished files
+    out.append({"name": "fix-report-names-finished-files", "caps": [[[0, 1]], [[1, 1]], [[2, 1]], [[0, 2]], [[3, 1]], [[1, 2]], [[4, 1]]], "tags": [], "probe": 7,
+                "script": [["import", 1], ["import", 2], ["job", "import"], ["job", "import"], ["import", 1], ["job", "import"], ["import", 1],
+                           ["job", "import"], ["view"], ["job", "import"], ["import", 2], ["job", "import"], ["view"], ["job", "import"], ["job", "import"]]})
     # view opened on an empty service (shape of finding view-refetch-empty)
     out.append({"name": "fix-view-on-empty", "caps": [[[0, 3], [1, 2]], [[0, 1]]], "tags": [], "probe": 4,
                 "script": [["view"], ["import", 1], ["job", "import"], ["job", "import"], ["read", 0], ["import", 1], ["job", "import"], ["job", "import"]]})
@@ -336,8 +348,13 @@ def processed_sets(sc, steps):
             if gone < 0 or prevq[gone:] != q:
                 probs.append(fail("C10", "queue", i, "import completion changed the queue from %s to %s (not a prefix removal)" % (prevq, q)))
                 gone = max(gone, 0)
-            for name in prevq[:gone]:
-                cur.add(int(name[1:4]))
+            # WHICH captures are reported processed is read from the pcap-processed webhook, not assumed
+            reported = list(s.get("reported") or [])
+            if sorted(reported) != sorted(prevq[:gone]):
+                probs.append(fail("C10", "report", i, "the pcap-processed report names %s but the captures this import job finished are %s (still queued: %s)" % (reported, prevq[:gone], q)))
+            for name in reported:
+                if name[1:4].isdigit():
+                    cur.add(int(name[1:4]))
             if s.get("events", 0) != prevev + 1:
                 probs.append(fail("C10", "event", i, "import completion without exactly one pcapProcessed event (%d -> %d)" % (prevev, s.get("events", 0))))
         elif act and act[0] == "import":
@@ -348,6 +365,14 @@ def processed_sets(sc, steps):
         prevq, prevev = q, s.get("events", 0)
         res.append(set(cur))
     return res, probs
+
+
+def vdiff(a, b):
+    """the parts of two battery answers that differ"""
+    pa, pb = a.split(" "), b.split(" ")
+    da = [x for x, y in zip(pa, pb) if x != y] + pa[len(pb):]
+    db = [y for x, y in zip(pa, pb) if x != y] + pb[len(pa):]
+    return " ".join(da), " ".join(db)
 
 
 def oracle_c10(sc, trace):
@@ -361,6 +386,7 @@ def oracle_c10(sc, trace):
             fails.append(fail("C10", "fatal", i, s["fatal"]))
             break
         for vid, ob in sorted((s.get("views") or {}).items()):
+            ob = dict(ob, ans=ob["ans"] + " TAGCOPY=" + ob.get("tags", ""))
             if vid not in first:
                 first[vid] = (i, ob["ans"], set(proc[i]), list(ob["held"]))
                 bad = check_view_answer(sc, ob["ans"], proc[i])
@@ -371,7 +397,7 @@ def oracle_c10(sc, trace):
                 if ob["ans"] != a0:
                     # shape of the known finding: the view's snapshot was empty when it was opened
                     shape = KF_REFETCH if h0 == [] else None
-                    fails.append(fail("C10", "unstable", i, "view %s (opened at step %d over %s) changed its answers after %s: %s  ->  %s" % (vid, i0, h0, s.get("act"), a0[:160], ob["ans"][:160]), view=vid, known=shape))
+                    fails.append(fail("C10", "unstable", i, "view %s (opened at step %d over %s) changed its answers after %s: %s  ->  %s" % (vid, i0, h0, s.get("act"), vdiff(a0, ob["ans"])[0][:260], vdiff(a0, ob["ans"])[1][:260]), view=vid, known=shape))
                     first[vid] = (i0, ob["ans"], p0, ["changed"])   # report once per change
     return fails
 
@@ -513,7 +539,9 @@ def model_case_text(sc, trace):
             lines.append("envconv %d" % (1 if launched else 0))
         if act[0] == "import":
             lines.append("import " + " ".join(str(k) for k in act[1]))
-        elif act[0] in ("view", "read", "release"):
+        elif act[0] == "view":
+            lines.append("view %d%s" % (act[1], " p" if len(act) > 2 else ""))
+        elif act[0] in ("read", "release"):
             lines.append("%s %d" % (act[0], act[1]))
         elif act[0] in ("tagadd", "convtag"):
             lines.append("tagadd")
@@ -540,10 +568,12 @@ def impl_projection(trace):
     um = uid_map(trace["steps"])
     content = {}
     out = []
+    reported_all = []      # captures named by the pcap-processed reports so far, in order
     for s in trace["steps"]:
         st = s.get("st")
         if not st or s.get("fatal"):
             break
+        reported_all += [int(n[1:4]) for n in (s.get("reported") or []) if n[1:4].isdigit()]
         for f, ents in (st.get("files") or {}).items():
             content[f] = sorted((e[0], e[1], e[2]) for e in ents)
         o = {
@@ -555,6 +585,7 @@ def impl_projection(trace):
             "queue": [int(n[1:4]) for n in st["queue"]],
             "jobs": sorted((s.get("parked") or {}).items()),
             "unc": st["unc"],
+            "proc": list(reported_all),
             "next": st["next"],
         }
         out.append(o)
@@ -589,13 +620,14 @@ def parse_model_line(line):
         "queue": [int(x) for x in o["queue"].split(",") if x],
         "jobs": sorted(tuple(e.split(":")) for e in o["jobs"].split(",") if e),
         "unc": int(o["unc"]),
+        "proc": [int(x) for x in o["proc"].split(",") if x],
         "next": int(o["next"]),
     }
 
 
 # what each property speaks about: a difference there raises an alarm, the rest is drift information only
-OBSERVABLES = {"C10": ("idx", "views"), "C13": ("idx", "used", "disk", "views")}
-ALLFIELDS = ("idx", "used", "disk", "views", "queue", "jobs", "unc", "next")
+OBSERVABLES = {"C10": ("idx", "views", "proc"), "C13": ("idx", "used", "disk", "views")}
+ALLFIELDS = ("idx", "used", "disk", "views", "queue", "jobs", "unc", "next", "proc")
 
 
 def run_model(exe, scs, traces, tag):
